@@ -18,8 +18,8 @@ Definition run_any (rows : list (list Z)) : list Z :=
   | [120] :: rest => run_extract2 rest
   | [121] :: rest => run_cbh2 rest
   | [122] :: rest => run_dom rest
-  | [123] :: rest => run_looph4 rest
-  | [124] :: rest => run_ibh3 rest
+  | [123] :: rest => run_looph5 rest
+  | [124] :: rest => run_ibh4 rest
   | [125] :: rest => run_imm rest
   | [108] :: rest => run_c08 rest
   | [110] :: rest => run_c10 rest
